@@ -35,6 +35,13 @@ impl Subj {
       Subj::Replay(s) => s.observable(),
     }
   }
+  fn observer_count(&self) -> usize {
+    match self {
+      Subj::Plain(s) => s.verif_observer_count(),
+      Subj::Behavior(s) => s.verif_observer_count(),
+      Subj::Replay(s) => s.verif_observer_count(),
+    }
+  }
   fn terminal(&self, t: &Step) {
     match (self, t) {
       (Subj::Plain(s), Step::E(e)) => s.error(mk_err(*e)),
@@ -80,6 +87,8 @@ impl Family for C12 {
       ("unsubscriber_wait", Json::Int(if rng.below(2) == 0 { rng.below(10) as i64 } else { -1 })),
       ("cb_probes", Json::Int(rng.below(2) as i64)),
       ("via_map", Json::Bool(rng.below(4) == 0)),
+      // a subscriber behind take(1): it leaves from inside the delivery of its first item
+      ("take1_subscriber_wait", Json::Int(if rng.below(3) == 0 { rng.below(10) as i64 } else { -1 })),
     ])
   }
   fn exec(&self, w: &Json, cfg: RunCfg) -> RunOut {
@@ -107,6 +116,10 @@ impl Family for C12 {
     let unsub = w.i("unsubscriber_wait");
     let probes = w.i("cb_probes").clamp(0, 2) as u32;
     let via_map = w.b("via_map");
+    let take1 = if w.get("take1_subscriber_wait").is_some() { w.i("take1_subscriber_wait") } else { -1 };
+    let rec_t = Recorder::with_probes(probes);
+    let count_end: Arc<Mutex<Option<usize>>> = Arc::new(Mutex::new(None));
+    let (rt2, ce2) = (rec_t.clone(), count_end.clone());
     let scripts: Vec<Vec<i64>> = counts.iter().enumerate().map(|(p, n)| (0..*n).map(|i| (p as i64 + 1) * 100 + i).collect()).collect();
     let rec_a = Recorder::with_probes(probes);
     let rec_b = Recorder::with_probes(probes);
@@ -165,6 +178,16 @@ impl Family for C12 {
           }));
         }
       }
+      if take1 >= 0 {
+        let (sbj, obs) = (sbj.clone(), obs.clone());
+        hs.push(rt::spawn_harness("take1-subscriber", move || {
+          for _ in 0..take1 {
+            rt::probe("c12-take1-subscriber-wait");
+          }
+          let sub = rt2.subscribe(&obs(&sbj).take(1));
+          std::mem::forget(sub);
+        }));
+      }
       if let Some(sub_c) = sub_c {
         let stp = stp.clone();
         hs.push(rt::spawn_harness("unsubscriber", move || {
@@ -181,6 +204,7 @@ impl Family for C12 {
         let _ = h.join();
       }
       rt::quiesce();
+      *ce2.lock().unwrap() = Some(sbj.observer_count());
     });
     // ---- oracle
     let blame = match kind.as_str() {
@@ -197,7 +221,7 @@ impl Family for C12 {
     for p in &pushes {
       history.push(format!("{:>4}..{:<4} push {}", p.s, p.e, p.item));
     }
-    for (n, r) in [("A(steady)", &rec_a), ("B(late)", &rec_b), ("B2(late)", &rec_b2), ("B3(late)", &rec_b3), ("C(unsubscribed)", &rec_c)] {
+    for (n, r) in [("A(steady)", &rec_a), ("B(late)", &rec_b), ("B2(late)", &rec_b2), ("B3(late)", &rec_b3), ("C(unsubscribed)", &rec_c), ("T(take 1)", &rec_t)] {
       for e in r.events() {
         history.push(format!("{:>4}..{:<4} {} gets {}", e.seq_in, e.seq_out, n, e.ev.show()));
       }
@@ -384,6 +408,24 @@ impl Family for C12 {
               }
             }
           }
+        }
+      }
+      // who is still registered with the subject once everything is quiet (no terminal involved):
+      // the observers that stayed; not the one that unsubscribed, not a take(1) that got its item
+      if let (None, Some(n)) = (&want_term, *count_end.lock().unwrap()) {
+        let t_left = rec_t.events().iter().any(|e| matches!(e.ev, Ev::Next(_)));
+        let expected = steady as usize + [0usize, 1, 3].iter().filter(|k| stamps[**k].is_some()).count() + (take1 >= 0 && !t_left) as usize + (unsub >= 0 && stamps[2].is_none()) as usize;
+        if n != expected {
+          v.push(Violation::new(
+            "observer-count-wrong",
+            blame,
+            format!("at quiescence the subject holds {} observer(s), expected {} (steady {}, late {}, take(1) subscriber {}, unsubscriber gone {}): take(1) subscriber saw {}", n, expected, steady, [0usize, 1, 3].iter().filter(|k| stamps[**k].is_some()).count(), if take1 < 0 { "absent" } else if t_left { "left after its item" } else { "still waiting" }, stamps[2].is_some(), rec_t.shown()),
+          ));
+        }
+        // the take(1) subscriber: exactly one item, then complete
+        let te = rec_t.events();
+        if t_left && (te.len() != 2 || te[1].ev != Ev::Complete) {
+          v.push(Violation::new("take1-wrong", blame, format!("subscriber behind take(1) saw {}", rec_t.shown())));
         }
       }
       // C: concurrent unsubscribe
